@@ -20,8 +20,10 @@ type Cmd struct {
 	Stdin      io.Reader
 	ExtraFiles []*sos.File
 	Process    *Process
-	real       *rexec.Cmd
-	proc       *zsim.Proc
+	// ProcessState is set by Wait
+	ProcessState *ProcessState
+	real         *rexec.Cmd
+	proc         *zsim.Proc
 }
 
 type Process struct {
@@ -64,6 +66,8 @@ func (c *Cmd) Wait() error {
 		return errors.New("exec: not started")
 	}
 	code := zsim.W.K.WaitProc(c.proc)
+	// like os/exec: the state of the exited process stays with the command
+	c.ProcessState = &ProcessState{code: code, signaled: c.proc.Killed}
 	if code != 0 {
 		return &ExitError{Code: code}
 	}
@@ -108,8 +112,22 @@ func (p *Process) Release() error { return nil }
 func LookPath(file string) (string, error) { return file, nil }
 
 // ProcessState is what Wait leaves behind.
-type ProcessState struct{ code int }
+type ProcessState struct {
+	code     int
+	signaled bool // ended by a signal: on Unix such a process has not "exited"
+}
 
-func (s *ProcessState) ExitCode() int { return s.code }
-func (s *ProcessState) Success() bool { return s.code == 0 }
-func (s *ProcessState) Exited() bool  { return true }
+func (s *ProcessState) ExitCode() int {
+	if s.signaled {
+		return -1
+	}
+	return s.code
+}
+func (s *ProcessState) Success() bool { return s.code == 0 && !s.signaled }
+func (s *ProcessState) Exited() bool  { return !s.signaled }
+func (s *ProcessState) String() string {
+	if s.signaled {
+		return "signal: killed"
+	}
+	return fmt.Sprintf("exit status %d", s.code)
+}
